@@ -33,11 +33,15 @@ package loadaware
 // returned) and then asked podFilter. Evict(pod) is issued only after both were asked for the pod of
 // this iteration (C == F, and the filter was asked about exactly this pod), never in dry-run mode, at
 // most once per pod; continueEviction is never asked again after it returned false (#stopfirst).
-// Not expressible: that podFilter's answer was *true* (a callback result cannot be named later).
+// #passed / #continuing: both answers were true; #evicted: estimates are only lowered after a successful
+// Evict (or in dry-run mode).
 //@ func evictPods [C18]
 //@   option observers continueEviction podFilter evictionReasonGenerator
 //@   assert before call continueEviction: #stopfirst: calls("continueEviction") == calls("podFilter") + 1 && $arg0.NodeUsage == nodeInfo.NodeUsage && $arg1 == totalAvailableUsages && $arg2 == prod
 //@   assert before call podFilter: #askthis: $arg0 == pod && calls("podFilter") == calls("continueEviction")
+//@   assert before call podFilter: #continuing: lastresult("continueEviction")
+//@   assert before call Evict: #passed: lastresult("continueEviction") && lastresult("podFilter")
+//@   assert before call Sub: #evicted: dryRun || lastresult("Evict")
 //@   assert before call Evict: #live: !dryRun
 //@   assert before call Evict: #thispod: $arg1 == pod
 //@   assert before call Evict: #asked: calls("continueEviction") == calls("podFilter") && calls("Evict") <= calls("podFilter")
@@ -77,14 +81,17 @@ package loadaware
 // asked lowThresholdFilter exactly once, every consult is about the current node and its thresholds,
 // a node is appended to at most one of the five lists, and a list only grows after its predicate was
 // consulted (high: highThresholdFilter; prodHigh: prodHighThresholdFilter; low / prodLow / bothLow:
-// prodLowThresholdFilter, itself only after prodHighThresholdFilter). The truth of the answers cannot
-// be named; the predicates themselves are specified above.
+// prodLowThresholdFilter, itself only after prodHighThresholdFilter). #place*: at the log call that ends
+// the iteration the node is the last element of exactly the list selected by the predicates' answers.
 //@ func classifyNodes [C18]
 //@   option observers lowThresholdFilter highThresholdFilter prodLowThresholdFilter prodHighThresholdFilter
 //@   assert before call lowThresholdFilter: #cur: $arg0 == nodeUsage
 //@   assert before call highThresholdFilter: #cur: $arg0 == nodeUsage
 //@   assert before call prodLowThresholdFilter: #cur: $arg0 == nodeUsage
 //@   assert before call prodHighThresholdFilter: #cur: $arg0 == nodeUsage
+//@   assert before call V: #placeLowSide: lastresult("lowThresholdFilter") ==> (lastresult("prodHighThresholdFilter") ? len(prodHighNodes) > 0 && prodHighNodes[len(prodHighNodes)-1].NodeUsage == nodeUsage : (lastresult("prodLowThresholdFilter") ? len(bothLowNodes) > 0 && bothLowNodes[len(bothLowNodes)-1].NodeUsage == nodeUsage : len(lowNodes) > 0 && lowNodes[len(lowNodes)-1].NodeUsage == nodeUsage))
+//@   assert before call V: #placeHigh: !lastresult("lowThresholdFilter") && lastresult("highThresholdFilter") ==> len(highNodes) > 0 && highNodes[len(highNodes)-1].NodeUsage == nodeUsage
+//@   assert before call V: #placeMid: !lastresult("lowThresholdFilter") && !lastresult("highThresholdFilter") ==> (lastresult("prodHighThresholdFilter") ? len(prodHighNodes) > 0 && prodHighNodes[len(prodHighNodes)-1].NodeUsage == nodeUsage : (lastresult("prodLowThresholdFilter") ==> len(prodLowNodes) > 0 && prodLowNodes[len(prodLowNodes)-1].NodeUsage == nodeUsage))
 //@   ensures #atmostone: len(lowNodes) + len(highNodes) + len(prodLowNodes) + len(prodHighNodes) + len(bothLowNodes) <= calls("lowThresholdFilter")
 //@   ensures #consulted: len(highNodes) <= calls("highThresholdFilter") && len(prodHighNodes) <= calls("prodHighThresholdFilter") && len(lowNodes) + len(prodLowNodes) + len(bothLowNodes) <= calls("prodLowThresholdFilter") && calls("prodLowThresholdFilter") <= calls("prodHighThresholdFilter")
 //@   loop 1 invariant #once: calls("lowThresholdFilter") == $n
@@ -119,6 +126,15 @@ package loadaware
 //@   assert before call evictPodsFromSourceNodes: #lists: $arg2 == abnormalNodes && $arg3 == lowNodes && $arg4 == abnormalProdNodes && $arg5 == prodLowNodes && $arg6 == bothLowNodes
 //@   ensures #once: calls("evictPodsFromSourceNodes") <= 1
 
+// resetNodesAsNormal: every listed node is looked up once by its name; Reset is called only on the
+// detector that lookup found, and it is called whenever the lookup succeeds.
+//@ func resetNodesAsNormal [C18]
+//@   assert before call Get: #byname: $arg0 == v.NodeUsage.node.ObjectMeta.Name
+//@   assert before call Reset: #found: lastresult("Get", 1) && $recv == lastresult("Get", 0)
+//@   ensures #lookups: calls("Get") == len(lowNodes) && calls("Reset") <= len(lowNodes)
+//@   loop 1 invariant 0 <= $i && $i <= len(lowNodes) && calls("Get") == $i && 0 <= calls("Reset") && calls("Reset") <= $i
+//@   loop 1 invariant #hitreset: $i > 0 && lastresult("Get", 1) ==> calls("Reset") >= 1
+
 // The continue-eviction condition built by processOneNodePool: true exactly when the source node is
 // still above its (prod) high threshold in some resource AND every configured resource still has
 // strictly positive headroom on the destination nodes.
@@ -126,10 +142,14 @@ package loadaware
 //@ spec func selHigh(ni NodeInfo, prod bool) map[corev1.ResourceName]*resource.Quantity = prod ? ni.thresholds.prodHighResourceThreshold : ni.thresholds.highResourceThreshold
 //@ spec func headroomLeft(names []corev1.ResourceName, avail map[corev1.ResourceName]*resource.Quantity) bool = forall j int :: 0 <= j && j < len(names) && has(avail, names[j]) ==> deref(avail[names[j]]) > 0
 
+// Effect: when the node is found back under its high threshold the closure resets exactly that node's
+// detector in the matching (prod / node) cache, once; it resets nothing while the node is still over.
 //@ func (*LowNodeLoad).processOneNodePool$1 [C18]
 //@   requires nodeInfo.NodeUsage != nil
 //@   ensures #overloaded: result ==> old(anyOver(selUsage(nodeInfo, prod), selHigh(nodeInfo, prod)))
 //@   ensures #headroom: result ==> old(headroomLeft(deref($fv_resourceNames), totalAvailableUsages))
+//@   assert before call resetNodesAsNormal: #recovered: !anyOver(selUsage(nodeInfo, prod), selHigh(nodeInfo, prod)) && len($arg0) == 1 && $arg0[0].NodeUsage == nodeInfo.NodeUsage && $arg1 == old(prod ? deref($fv_pl).prodAnomalyDetectors : deref($fv_pl).nodeAnomalyDetectors)
+//@   ensures #reset: calls("resetNodesAsNormal") == (old(anyOver(selUsage(nodeInfo, prod), selHigh(nodeInfo, prod))) ? 0 : 1)
 //@   ensures #iff: result <==> old(anyOver(selUsage(nodeInfo, prod), selHigh(nodeInfo, prod)) && headroomLeft(deref($fv_resourceNames), totalAvailableUsages))
 //@   loop 1 invariant 0 <= $i && $i <= len(deref($fv_resourceNames))
 //@   loop 1 invariant forall j int :: 0 <= j && j < $i && has(totalAvailableUsages, deref($fv_resourceNames)[j]) ==> deref(totalAvailableUsages[deref($fv_resourceNames)[j]]) > 0
